@@ -110,6 +110,9 @@ def h_entry(p1: bool, m1: bool, d1: bool, sn1: bool, s1: int, x1: bool, cn1: boo
         if a is not None and b is not None and hash_equal and meta_equal and (a.meta is None) == (b.meta is None) \
                 and t != UNCHANGED:
             violation("entry-equal-reported-changed", t)
+        if a is not None and b is not None and a.meta is not None and b.meta is not None and t in (ADD, DELETE):
+            # a key that exists, with metadata, on both sides was neither added nor deleted
+            violation("entry-present-on-both-sides-classified-one-sided", t)
     journal({"pres": [int(p1), int(m1), int(h1), int(p2), int(m2), int(h2)], "t": t, "he": int(hash_equal), "me": int(meta_equal)},
             nontrivial=True)
     return True
